@@ -287,9 +287,23 @@ def _constructs_module(p, cls, node, init):
     return False
 
 
+def pers_stale_rule(ctx):
+    """PERS-STALE = LD-STATE (shared with C01 / C02 / C03): a copy of stored state kept in a plain
+    attribute or a non-persistent buffer (a constructor-time or eval-time derived value, a memo) is
+    refreshed or cleared wherever that state is replaced -- load_state_dict included; otherwise a
+    reloaded model keeps computing with what it was built with."""
+    from .ld_rules import ld_state_rule
+
+    r = ld_state_rule(ctx)
+    r.rule = "PERS-STALE"
+    for f in r.findings:
+        f.rule = "PERS-STALE"
+    return r
+
+
 register(
     "C15",
-    [pers_rng_rule, pers_mut_rule, pers_np_rule, pers_call_rule],
+    [pers_rng_rule, pers_mut_rule, pers_np_rule, pers_call_rule, pers_stale_rule],
     "Dataflow over constructors and evaluation paths. PERS-RNG: every nn.Module constructor is abstractly interpreted with a "
     "taint domain in which random sources (torch.rand*, randperm, randint, multinomial, init.uniform_/normal_..., np.random, and "
     "repository helpers that return them, found interprocedurally) label their results RNG; every store of an RNG-tainted value "
